@@ -4,8 +4,9 @@
 
    Documents are lists of Unicode scalar values; offsets are BYTE offsets into
    the UTF-8 encoding (what garden's positions carry); `boundary s o` says o is
-   the byte length of a prefix of s.  `line_of s o` is the line number garden's
-   lexer attaches to offset o (number of `\n` before it).  The hypothesis
+   the byte length of a prefix of s.  The line/end-line fields of a garden
+   position are not used by the conversions (see stale_end_line_refuted for why
+   they must not be).  The hypothesis
    `blen s < 2^32` is there because the Rust code truncates with `as u32`
    (LSP itself cannot address more). *)
 From Coq Require Import NArith Bool List.
@@ -16,7 +17,7 @@ Open Scope N_scope.
 (* Offset -> LSP position -> offset is the identity on every character
    boundary of every document (CR, CRLF, astral characters included). *)
 Theorem pos_roundtrip : forall s o, blen s < 4294967296 -> boundary s o ->
-  exists l c, offset_to_lsp_position s o (line_of s o) = POk l c /\ line_char_to_offset s l c = o.
+  exists l c, offset_to_lsp_position s o = POk l c /\ line_char_to_offset s l c = o.
 Proof. exact pos_roundtrip_lemma. Qed.
 Print Assumptions pos_roundtrip.
 
@@ -27,15 +28,38 @@ Print Assumptions boundary_decided.
 
 (* Inside a character the conversion panics (so callers must pass boundaries);
    past the end it clamps to the end. *)
-Theorem offset_off_boundary_panics : forall s o ln, o <= blen s -> ~ boundary s o ->
-  offset_to_lsp_position s o ln = PPanic.
+Theorem offset_off_boundary_panics : forall s o, o <= blen s -> ~ boundary s o ->
+  offset_to_lsp_position s o = PPanic.
 Proof. exact o2p_nonboundary_panics. Qed.
 Print Assumptions offset_off_boundary_panics.
 
-Theorem offset_past_end_clamps : forall s o ln, blen s <= o ->
-  offset_to_lsp_position s o ln = offset_to_lsp_position s (blen s) ln.
+Theorem offset_past_end_clamps : forall s o, blen s <= o ->
+  offset_to_lsp_position s o = offset_to_lsp_position s (blen s).
 Proof. exact o2p_clamps. Qed.
 Print Assumptions offset_past_end_clamps.
+
+(* The line of the LSP position is the line number garden's lexer gives that offset. *)
+Theorem position_line_is_lexer_line : forall s o l c, blen s < 4294967296 -> boundary s o ->
+  offset_to_lsp_position s o = POk l c -> l = line_of s o.
+Proof. exact o2p_line_is_lexer_line. Qed.
+Print Assumptions position_line_is_lexer_line.
+
+(* The range of a garden position depends on its two offsets only. *)
+Theorem range_uses_offsets_only : forall s g,
+  garden_pos_to_lsp_range s g = range_of s (start_offset g) (end_offset g).
+Proof. exact range_ignores_line_fields. Qed.
+Print Assumptions range_uses_offsets_only.
+
+(* Before the fix the line came from the garden position; a position whose
+   end offset was moved past a newline (quick fix "Remove unused value") then
+   produced an empty range.  First conjunct: the pre-fix code leaves the
+   document unchanged; second: the intended splice; third: the fixed code. *)
+Theorem stale_end_line_refuted :
+  apply_lsp_edit_opt stale_doc (garden_pos_to_lsp_range_v0 stale_doc stale_pos) [] = Some stale_doc
+  /\ splice stale_doc 2 4 [] = Some [123; LF; 98; 125]
+  /\ apply_lsp_edit_opt stale_doc (garden_pos_to_lsp_range stale_doc stale_pos) [] = Some [123; LF; 98; 125].
+Proof. exact stale_end_line_refuted_lemma. Qed.
+Print Assumptions stale_end_line_refuted.
 
 (* whole_document_range ends exactly at the position of the end offset:
    (number of `\n`, UTF-16 length of what follows the last `\n`). *)
@@ -112,11 +136,11 @@ Print Assumptions between_cr_lf_decided.
 (* Non-vacuity: "aé\r\n€😀a\n😀\ré" (2-, 3-, 4-byte characters, CRLF and a bare CR). *)
 Example roundtrip_nonvacuous :
   blen sample = 21 /\ ulen sample = 13 /\
-  boundary sample 12 /\ offset_to_lsp_position sample 12 (line_of sample 12) = POk 1 3
+  boundary sample 12 /\ offset_to_lsp_position sample 12 = POk 1 3
   /\ line_char_to_offset sample 1 3 = 12
-  /\ boundary sample 21 /\ offset_to_lsp_position sample 21 (line_of sample 21) = POk 2 4
+  /\ boundary sample 21 /\ offset_to_lsp_position sample 21 = POk 2 4
   /\ line_char_to_offset sample 2 4 = 21
-  /\ ~ boundary sample 2 /\ offset_to_lsp_position sample 2 0 = PPanic.
+  /\ ~ boundary sample 2 /\ offset_to_lsp_position sample 2 = PPanic.
 Proof.
   pose proof sample_len. pose proof roundtrip_sample. pose proof roundtrip_sample_after_cr.
   pose proof nonboundary_sample. intuition.
